@@ -183,10 +183,10 @@ def pseudoTT (two : Bool) : TT := if two then .pseudoElement else .pseudoClass
 
 /-- is `:name` / `::name` a pseudo-element? two colons, or one of the four legacy names in any spelling -/
 def pseudoIsElem (two : Bool) (name : Cps) : Bool :=
-  two || elemOf (normalize (colons two ++ name)) legacyPseudoElements
+  two || elemOf (normalizeName (colons two ++ name)) legacyPseudoElements
 
 def pseudoItem (two : Bool) (name : Cps) : Item :=
-  ⟨.str (normalize (colons two ++ name)), if pseudoIsElem two name then tyPseudoElement else (pseudoTT two).name⟩
+  ⟨.str (normalizeName (colons two ++ name)), if pseudoIsElem two name then tyPseudoElement else (pseudoTT two).name⟩
 
 /-- tokens of the argument of a functional pseudo -/
 inductive ArgTok
@@ -232,10 +232,19 @@ def argPush (rs : List Item) : List ArgTok → List Item
 
 /-! ## simple selectors -/
 
-/-- the argument of `:not( )`: one simple selector (functional pseudos are not accepted there by the code) -/
+/-- the argument of `:not( )`: one simple selector (no nested negation) -/
 inductive NegArg
   | type (t : TypeSel) | id (v : Cps) | cls (name : Cps) | attr (a : Attr) | pseudo (two : Bool) (name : Cps)
+  | func (two : Bool) (fname : Cps) (args : List ArgTok)
 deriving DecidableEq, Repr
+
+/-- tokens / items of a functional pseudo `:` [`:`] FUNCTION args `)` -/
+def funcRaw (two : Bool) (f : Cps) (args : List ArgTok) : List Tok :=
+  colonsRaw two ++ [⟨.function, f⟩] ++ args.map ArgTok.tok ++ [⟨.char, [41]⟩]
+def funcCooked (two : Bool) (f : Cps) (args : List ArgTok) : List Tok :=
+  [⟨pseudoTT two, colons two ++ f⟩] ++ args.map ArgTok.tok ++ [⟨.char, [41]⟩]
+def funcPush (two : Bool) (f : Cps) (args : List ArgTok) (rs : List Item) : List Item :=
+  ⟨.str [41], tyFuncEnd⟩ :: argPush (⟨.str (normalizeName (colons two ++ f)), (pseudoTT two).name⟩ :: rs) args
 
 inductive Simple
   | id (v : Cps)                                   -- the HASH token value, e.g. `#x`
@@ -252,6 +261,7 @@ def NegArg.raw : NegArg → List Tok
   | .cls n => [⟨.char, [46]⟩, ⟨.ident, n⟩]
   | .attr a => a.raw
   | .pseudo two n => colonsRaw two ++ [⟨.ident, n⟩]
+  | .func two f args => funcRaw two f args
 
 def NegArg.cooked : NegArg → List Tok
   | .type t => t.cooked
@@ -259,6 +269,7 @@ def NegArg.cooked : NegArg → List Tok
   | .cls n => [⟨.cls, 46 :: n⟩]
   | .attr a => a.cooked
   | .pseudo two n => [⟨pseudoTT two, colons two ++ n⟩]
+  | .func two f args => funcCooked two f args
 
 def NegArg.rpush (ns : NsMap) (x : NegArg) (rs : List Item) : List Item :=
   match x with
@@ -267,13 +278,14 @@ def NegArg.rpush (ns : NsMap) (x : NegArg) (rs : List Item) : List Item :=
   | .cls n => ⟨.str (46 :: n), tyClass⟩ :: rs
   | .attr a => a.rpush ns rs
   | .pseudo two n => pseudoItem two n :: rs
+  | .func two f args => funcPush two f args rs
 
 def Simple.raw : Simple → List Tok
   | .id v => [⟨.hash, v⟩]
   | .cls n => [⟨.char, [46]⟩, ⟨.ident, n⟩]
   | .attr a => a.raw
   | .pseudo two n => colonsRaw two ++ [⟨.ident, n⟩]
-  | .func two f args => colonsRaw two ++ [⟨.function, f⟩] ++ args.map ArgTok.tok ++ [⟨.char, [41]⟩]
+  | .func two f args => funcRaw two f args
   | .not fv f1 x f2 => [⟨.char, [58]⟩, ⟨.function, fv⟩] ++ f1.map Fill.tok ++ x.raw ++ f2.map Fill.tok ++ [⟨.char, [41]⟩]
 
 def Simple.cooked : Simple → List Tok
@@ -281,7 +293,7 @@ def Simple.cooked : Simple → List Tok
   | .cls n => [⟨.cls, 46 :: n⟩]
   | .attr a => a.cooked
   | .pseudo two n => [⟨pseudoTT two, colons two ++ n⟩]
-  | .func two f args => [⟨pseudoTT two, colons two ++ f⟩] ++ args.map ArgTok.tok ++ [⟨.char, [41]⟩]
+  | .func two f args => funcCooked two f args
   | .not fv f1 x f2 => [⟨.negation, 58 :: fv⟩] ++ f1.map Fill.tok ++ x.cooked ++ f2.map Fill.tok ++ [⟨.char, [41]⟩]
 
 def Simple.rpush (ns : NsMap) (s : Simple) (rs : List Item) : List Item :=
@@ -290,10 +302,9 @@ def Simple.rpush (ns : NsMap) (s : Simple) (rs : List Item) : List Item :=
   | .cls n => ⟨.str (46 :: n), tyClass⟩ :: rs
   | .attr a => a.rpush ns rs
   | .pseudo two n => pseudoItem two n :: rs
-  | .func two f args =>
-    ⟨.str [41], tyFuncEnd⟩ :: argPush (⟨.str (normalize (colons two ++ f)), (pseudoTT two).name⟩ :: rs) args
+  | .func two f args => funcPush two f args rs
   | .not fv f1 x f2 =>
-    ⟨.str [41], tyNegEnd⟩ :: fillQuiet (x.rpush ns (fillQuiet (⟨.str (normalize (58 :: fv)), tyNegStart⟩ :: rs) f1)) f2
+    ⟨.str [41], tyNegEnd⟩ :: fillQuiet (x.rpush ns (fillQuiet (⟨.str (normalizeName (58 :: fv)), tyNegStart⟩ :: rs) f1)) f2
 
 /-- a pseudo-element closes its compound (only a combinator may follow) -/
 def Simple.isElem : Simple → Bool
@@ -425,6 +436,7 @@ def NegArg.kind : NegArg → Kind
   | .cls _ => .cls
   | .attr _ => .attr
   | .pseudo two n => if pseudoIsElem two n then .pelem else .pclass
+  | .func two _ _ => if two then .pelem else .pclass
 
 /-- `(kind, negated?)` -/
 def Simple.kind : Simple → Kind × Bool
@@ -498,7 +510,7 @@ def Attr.ok (ns : NsMap) (a : Attr) : Bool :=
    | some (_, f3, v, f4) => f3.all Fill.ok && v.ok && f4.all Fill.ok)
 
 /-- a pseudo name: an identifier whose normalised form does not end in `(` (it is not read as a function) -/
-def pseudoOk (two : Bool) (n : Cps) : Bool := nameOk n && !(endsWith (normalize (colons two ++ n)) [40])
+def pseudoOk (two : Bool) (n : Cps) : Bool := nameOk n && !(endsWith (normalizeName (colons two ++ n)) [40])
 
 def ArgTok.ok : ArgTok → Bool
   | .plus => true
@@ -510,22 +522,25 @@ def ArgTok.ok : ArgTok → Bool
   | .ws v => inert v
   | .cm v => inert v
 
+/-- a FUNCTION token ends with `(`; with one colon it must not be `not(`; at least one argument token -/
+def funcOk (two : Bool) (f : Cps) (args : List ArgTok) : Bool :=
+  endsWith f [40] && endsWith (normalizeName (colons two ++ f)) [40] && (two || !(normalize f == sNotOpen)) &&
+  args.all ArgTok.ok && args.any (fun a => !a.isFill)
+
 def NegArg.ok (ns : NsMap) : NegArg → Bool
   | .type t => t.ok ns
   | .id v => startsWith v [35]
   | .cls n => nameOk n
   | .attr a => a.ok ns
   | .pseudo two n => pseudoOk two n
+  | .func two f args => funcOk two f args
 
 def Simple.ok (ns : NsMap) : Simple → Bool
   | .id v => startsWith v [35]                     -- a HASH token starts with `#`
   | .cls n => nameOk n
   | .attr a => a.ok ns
   | .pseudo two n => pseudoOk two n
-  | .func two f args =>
-    -- a FUNCTION token ends with `(`; with one colon it must not be `not(`; at least one argument token
-    endsWith f [40] && endsWith (normalize (colons two ++ f)) [40] && (two || !(normalize f == sNotOpen)) &&
-    args.all ArgTok.ok && args.any (fun a => !a.isFill)
+  | .func two f args => funcOk two f args
   | .not fv f1 x f2 =>
     normalize fv == sNotOpen && endsWith fv [40] && f1.all Fill.ok && x.ok ns && f2.all Fill.ok
 
